@@ -285,3 +285,20 @@ package cl
 //@   option trace
 //@   on-call Call#3 predicate-argument-order: len($arg1) == 2 && $arg1[0] == vi && $arg1[1] == vj
 //@   ensures less-is-predicate: result0 <==> truthy($eres[$n - 1])
+
+// ---------------------------------------------------------------------------
+// C15: format directives.
+//@ define signlen(o) = (o[0] == '-' || o[0] == '+') ? 1 : 0
+
+// ~D ~B ~O ~X with the : modifier: separators are placed every commaint
+// digits counted from the right, never directly after the sign.
+//@ func cl.(*control).dirInt
+//@   property C15
+//@   loop i<len(out): invariant interval: commaint >= 1
+//@   loop i<len(out): invariant not-after-sign: i >= 1 + signlen(out)
+//@   loop i<len(out): invariant whole-groups: (len(out) - i) % commaint == 0
+
+// ~[ consumes an argument only when it has no prefix parameter (or a : / @ modifier).
+//@ func cl.(*control).dirCond
+//@   property C15
+//@   on-store argPos#1 consumes-only-without-parameter: colon || at || n < 0
